@@ -656,12 +656,89 @@ Ltac sub IHe a tgt Hacc' c S1 X Hs1 Hc1 Hn1 :=
 
 Ltac tgt_is Hacc t' := apply accepts_nonnil in Hacc; [subst t'|try discriminate].
 
+(* ---- for-in loops ------------------------------------------------------------------------------ *)
+
+(* the body evaluator is safe whenever the loop variable is bound to a cell of type tx, in any
+   store reached from (S0, st0) *)
+Definition body_safe (ev : nat -> state -> Eval.res * state) (tx : cty) (S0 : styping) (st0 : state)
+  : Prop :=
+  forall c S st r st', ext S0 st0 S st -> st_ok S st -> nth_error S c = Some tx ->
+    ev c st = (r, st') -> r <> RStuck /\ exists S', ext S st S' st' /\ st_ok S' st'.
+
+Definition src_ok (S : styping) (tx : cty) (s : lsrc) : Prop :=
+  match s with
+  | LUp _ _ | LDown _ _ => tx = Types.CInt
+  | LArr ca _ => nth_error S ca = Some (Types.CArr tx)
+  end.
+
+Lemma src_ok_ext : forall S st S' st' tx s, ext S st S' st' -> src_ok S tx s -> src_ok S' tx s.
+Proof. intros S st S' st' tx [z zb|z zb|ca i] [H _] Hs; simpl in *; auto. Qed.
+
+(* one step of the loop source: done, a nil-array fault, or a typed cell for the loop variable *)
+Lemma forin_step_safe : forall S st tx s, st_ok S st -> src_ok S tx s ->
+  match forin_step st s with
+  | LsDone => True
+  | LsFault r => exists ex, r = RExc ex
+  | LsBind c st1 s' =>
+    exists S1, ext S st S1 st1 /\ st_ok S1 st1 /\ nth_error S1 c = Some tx /\ src_ok S1 tx s'
+  end.
+Proof.
+  intros S st tx s Hs Hsrc. destruct s as [z zb|z zb|ca i]; cbn [forin_step]; simpl in Hsrc.
+  - subst tx. destruct (z <=? zb)%Z; [|exact I].
+    destruct (alloc_ok R genv S st (Eval.CInt z) Types.CInt Hs (V_int _ _ _ _ z)) as [H1 [H2 H3]].
+    destruct (alloc st (Eval.CInt z)) as [c st1]. simpl in *.
+    exists (S ++ [Types.CInt]). auto.
+  - subst tx. destruct (zb <=? z)%Z; [|exact I].
+    destruct (alloc_ok R genv S st (Eval.CInt z) Types.CInt Hs (V_int _ _ _ _ z)) as [H1 [H2 H3]].
+    destruct (alloc st (Eval.CInt z)) as [c st1]. simpl in *.
+    exists (S ++ [Types.CInt]). auto.
+  - destruct (cell_get _ _ _ _ _ _ Hs Hsrc) as [v [Eg V]]. rewrite Eg.
+    destruct (val_arr _ _ _ _ _ _ V) as [->|[a [elems [-> [Ea Fa]]]]]; [eauto|].
+    rewrite Ea. destruct (nth_error elems i) as [c|] eqn:Ec; [|exact I].
+    exists S. split; [apply ext_refl|]. split; [exact Hs|]. split; [|exact Hsrc].
+    rewrite Forall_forall in Fa. apply Fa. eapply nth_error_In; eauto.
+Qed.
+
+Lemma forin_loop_safe : forall ev tx S0 st0, body_safe ev tx S0 st0 ->
+  forall n s S st r st', ext S0 st0 S st -> st_ok S st -> src_ok S tx s ->
+  forin_loop ev n s st = (r, st') -> good S st Types.CInt True r st'.
+Proof.
+  intros ev tx S0 st0 Hb. induction n as [|n IH]; intros s S st r st' X0 Hs Hsrc Hev.
+  - rewrite forin_loop_O in Hev. inversion Hev; subst.
+    apply good_here; [exact Hs|discriminate|intros; discriminate].
+  - rewrite forin_loop_S in Hev. pose proof (forin_step_safe S st tx s Hs Hsrc) as Hst.
+    destruct (forin_step st s) as [|rf|c st1 s'].
+    + refine (good_fresh _ _ _ _ _ _ _ Hs _ I Hev). constructor.
+    + inversion Hev; subst. destruct Hst as [ex ->].
+      apply good_here; [exact Hs|discriminate|intros; discriminate].
+    + destruct Hst as [S1 [X1 [Hs1 [Hc1 Hsrc1]]]].
+      eapply good_trans; [exact X1|].
+      destruct (ev c st1) as [r2 s2] eqn:E2.
+      destruct (Hb c S1 st1 r2 s2 (ext_trans _ _ _ _ _ _ X0 X1) Hs1 Hc1 E2) as [N2 [S2 [X2 Hs2]]].
+      destruct r2 as [c2| | |].
+      * eapply good_trans; [exact X2|].
+        apply (IH s' S2 s2 r st'); auto.
+        -- eapply ext_trans; [exact X0|]. eapply ext_trans; eauto.
+        -- eapply src_ok_ext; eauto.
+      * inversion Hev; subst. eapply good_step; eauto. intros; discriminate.
+      * inversion Hev; subst. eapply good_step; eauto. intros; discriminate.
+      * congruence.
+Qed.
+
+Lemma env_ok_loopvar : forall S G env x t k c, env_ok S G env -> nth_error S c = Some t ->
+  env_ok S ([(x, (t, k))] :: G) ((x, c) :: env).
+Proof.
+  intros S G env x t k c He Hc.
+  apply (env_ok_declare genv S ([] :: G) ([(x, (t, k))] :: G) env x t k c);
+    [apply env_ok_push; exact He|reflexivity|exact Hc].
+Qed.
+
 Lemma eval_step : forall k, eval_safe k -> items_safe k -> handlers_safe k -> eval_safe (S k).
 Proof.
   intros k IHe IHi IHh G e t kk t' env st S r st' HT Hr Hacc Henv Hst Hev.
   pose proof Hr as Hr0.
   destruct e as [z|b|x|a|a|a|op a b|c a b|c a|lhs rhs|f args|items|c body|body c
-                 |init cond incr body|fd|es ety|a i|rn args|rn|a rn fld|a];
+                 |init cond incr body|x a b body|x arr body|fd|es ety|a i|rn args|rn|a rn fld|a];
     inversion HT; subst.
   - (* int *) rewrite eval_EInt in Hev. tgt_is Hacc t'.
     refine (good_fresh _ _ _ _ _ _ _ Hst _ _ Hev); [constructor|intros; discriminate].
@@ -791,6 +868,34 @@ Proof.
     assert (HRW : ready_expr (EWhile cond (EBlock [IExpr body; IExpr incr])) = true).
     { simpl. repeat match goal with Hq : ready_expr _ = true |- _ => rewrite Hq; clear Hq end. reflexivity. }
     eapply good_weaken; [eapply (IHe _ _ _ _ Types.CInt _ _ _ _ _ HW HRW); eauto|]. intros; discriminate.
+  - (* for-in over a range *)
+    simpl in Hr. split_and. rewrite eval_EForInRange in Hev. tgt_is Hacc t'.
+    sub IHe b Types.CInt (eq_refl : accepts Types.CInt Types.CInt = true) cb S1 X1 Hs1 Hc1 Hn1.
+    sub IHe a Types.CInt (eq_refl : accepts Types.CInt Types.CInt = true) ca S2 X2 Hs2 Hc2 Hn2.
+    destruct (cell_int _ _ _ _ _ Hs2 Hc2) as [za Eza]. rewrite Eza in Hev.
+    destruct (cell_int _ _ _ _ _ Hs2 (proj1 X2 _ _ Hc1)) as [zb Ezb]. rewrite Ezb in Hev.
+    match goal with HB : HasType _ (_ :: G) body ?tb |- _ => destruct tb as [tyb knb]; rename HB into HTB end.
+    eapply good_weaken;
+      [eapply (forin_loop_safe _ Types.CInt S2 sa0); [|apply ext_refl|exact Hs2| |exact Hev]|intros; discriminate].
+    + intros c S' st0 r0 st0' X0 Hs0 Hc0 Hev0.
+      assert (Gb := IHe _ body _ _ (dflt tyb) _ _ _ _ _ HTB ltac:(assumption) (accepts_dflt tyb)
+                        (env_ok_loopvar _ _ _ x _ KConst _ (env_ok_ext _ _ _ _ _ _ _ X0 ltac:(eassumption)) Hc0)
+                        Hs0 Hev0).
+      destruct Gb as [N [S3 [X3 [Hs3 _]]]]. split; [exact N|]. exists S3. auto.
+    + unfold range_src. destruct (za <? zb)%Z; reflexivity.
+  - (* for-in over an array *)
+    simpl in Hr. split_and. rewrite eval_EForInArr in Hev. tgt_is Hacc t'.
+    match goal with HA : HasType _ G arr (Types.CArr ?e, ?ka) |- _ =>
+      sub IHe arr (Types.CArr e) (accepts_refl (Types.CArr e) ltac:(discriminate)) ca S1 X1 Hs1 Hc1 Hn1 end.
+    match goal with HB : HasType _ (_ :: G) body ?tb |- _ => destruct tb as [tyb knb]; rename HB into HTB end.
+    eapply good_weaken;
+      [eapply (forin_loop_safe _ e S1 sa); [|apply ext_refl|exact Hs1| |exact Hev]|intros; discriminate].
+    + intros c S' st0 r0 st0' X0 Hs0 Hc0 Hev0.
+      assert (Gb := IHe _ body _ _ (dflt tyb) _ _ _ _ _ HTB ltac:(assumption) (accepts_dflt tyb)
+                        (env_ok_loopvar _ _ _ x _ ka _ (env_ok_ext _ _ _ _ _ _ _ X0 ltac:(eassumption)) Hc0)
+                        Hs0 Hev0).
+      destruct Gb as [N [S3 [X3 [Hs3 _]]]]. split; [exact N|]. exists S3. auto.
+    + exact Hc1.
   - (* lambda *)
     simpl in Hr. rewrite eval_ELambda in Hev.
     apply accepts_nonnil in Hacc; [subst t'|unfold fd_cty, sig_cty; discriminate].
